@@ -159,11 +159,45 @@ pub fn run(o: &Opts) {
         json!({"stream": "c11-project", "case": name}));
     }
   }
+  // ---- a loaded configuration on hostile SOURCE texts: suppression comments with every kind of continuation,
+  //      control characters, CRLF / CR-only, BOM, very long and very deep texts, unterminated constructs
+  {
+    let d2 = fresh_dir(&o.out, "sources");
+    std::fs::write(d2.join("rule.yml"), "id: no-foo\nlanguage: TypeScript\nseverity: warning\nmessage: found $A\nrule:\n  pattern: foo($A)\nfix: bar($A)\n---\nid: no-num\nlanguage: TypeScript\nmessage: n\nrule:\n  kind: number\n  inside: {kind: arguments, stopBy: end}\n").unwrap();
+    let tails = ["", ":", ": ", ": no-foo", ":no-foo,no-num", ": no-foo,, ,no-num,", "：no-foo", " — legacy", "é", ": é", ":\t", ": no-foo]", "[no-foo]", ": 日本, no-foo", "\u{feff}", ": \u{0}", "-next-line", ": no-foo no-num", ":::", ": ,"];
+    let mut texts: Vec<String> = vec![];
+    for t in tails {
+      texts.push(format!("// ast-grep-ignore{t}\nfoo(1)\n"));
+      texts.push(format!("foo(2) // ast-grep-ignore{t}\n/* ast-grep-ignore{t} */ foo(3)\n"));
+    }
+    texts.push("\u{feff}foo(1)\r\nfoo(2)\rfoo(3)\n".into());
+    texts.push(format!("foo({}1{})\n", "(".repeat(300), ")".repeat(300)));
+    texts.push(format!("foo({})\n", "[".repeat(2000)));
+    texts.push(format!("let s = '{}'; foo(s)\n", "é".repeat(5000)));
+    texts.push("foo(\u{0}, '\u{7f}', `\u{2028}`)\n".into());
+    texts.push("foo(1".into());
+    texts.push("".into());
+    texts.push("\n\n\n".into());
+    for _ in 0..(if o.thorough { 200 } else { 40 }) {
+      let alphabet = ["foo(", ")", "1", ", ", "// ast-grep-ignore", ": ", "no-foo", "\n", "\r\n", "é", "日", "/*", "*/", "'", "`", "{", "}", ";", " ", "\t", "：", "—"];
+      texts.push((0..(1 + rng.below(14))).map(|_| *rng.pick(&alphabet)).collect());
+    }
+    for (i, text) in texts.iter().enumerate() {
+      std::fs::write(d2.join("s.ts"), text).unwrap();
+      let r = if i % 4 == 3 { sg(&d2, &["scan", "-r", "rule.yml", "--stdin", "--json=stream"], Some(text), 15) } else if i % 4 == 2 { sg(&d2, &["scan", "-r", "rule.yml", "-U", "s.ts"], None, 15) } else { sg(&d2, &["scan", "-r", "rule.yml", "--json=stream", "s.ts"], None, 15) };
+      out.checked();
+      out.count("source-texts-on-a-loaded-configuration");
+      if r.timed_out || r.code.is_none() || matches!(r.code, Some(101) | Some(134) | Some(139)) {
+        out.oracle_fail("", &format!("a loaded configuration on the source text {}: exit {:?} timed_out={} ({})", serde_json::to_string(text).unwrap().chars().take(300).collect::<String>(), r.code, r.timed_out,
+          r.stderr.lines().find(|l| l.contains("panicked") || l.contains("overflow")).unwrap_or("").chars().take(200).collect::<String>()), json!({"stream": "c11-source", "source": text.chars().take(2000).collect::<String>()}));
+      }
+    }
+  }
   crate::c11case::run_case_tie(&mut out, &mut rng, if o.thorough { 6000 } else { 1500 });
   out.finish("rule documents from 22 generators (extreme / non-numeric nthChild and substring numbers, An+B strings at the i32 limits, empty / multi-byte / sigil-only transform sources, invalid regexes in regex / replace / expansions, \
               convert on multi-byte acronyms, ranges, reference cycles through all/any/not/matches, nthChild.ofRule and relational rules, cyclic and dangling transformations, rewriters with expanding fixes and unknown ids, \
               textual mutations of a valid rule, random keys and types, labels / metadata / globs) each loaded and run on a source (file and --stdin) by the debug-build CLI in a child process under a 15 s limit; \
               plus project-level cases (orphan snapshot, unknown test id, garbage sgconfig / test / util files, missing directories, custom language without library). \
-              Failure = panic exit, abort / stack overflow, hang, or a rejection without any message. \
+              A loaded two-rule configuration is also run (file, -U, --stdin) on about 90 (250) hostile source texts: suppression comments with every kind of continuation (multi-byte, full-width colon, control characters), BOM / CR-only / CRLF, very deep and very long texts, unterminated constructs, random token soup. Failure = panic exit, abort / stack overflow, hang, or a rejection without any message. \
               Plus the tie of the `convert` word splitter (fid 51): random texts over a 33-character alphabet (ASCII, 2/3/4-byte upper- and lower-case letters, uncased letters, title-case, separators) and acronym + wide-letter texts through kebab/snake conversion, words mapped back to byte ranges. non-trivial = the document was accepted and the scan ran");
 }
